@@ -264,7 +264,9 @@ def executePhaseLoop (cfg : Cfg) (p : Phase) (sub : Option Nat) (limit : Nat) : 
   | fuel+1, n, st =>
     let isLast := decide (n ≥ limit)
     let r := executePhaseOnce cfg p sub isLast st
-    if shouldRepeat p.opts r.2 r.1.phases && !isLast then executePhaseLoop cfg p sub limit fuel (n + 1) r.1
+    -- (after `fix:` d4399cb4) a phase excluded by its run_if wrote no record: it is not repeated
+    let invoked := decide (st.phases.length < r.1.phases.length)
+    if invoked && shouldRepeat p.opts r.2 r.1.phases && !isLast then executePhaseLoop cfg p sub limit fuel (n + 1) r.1
     else r
 
 def executePhase (cfg : Cfg) (p : Phase) (sub : Option Nat) (st : St) : St × Res :=
